@@ -112,9 +112,11 @@ func (p *parser) parseInfix(left ast.Expr, rbp oper.BP) ast.Expr {
 	for p.infixLbp(p.peek()) > rbp {
 		t := p.eat()
 		inf := p.mustInfix(t)
-		left = inf.led(p, inf.BP, left, t)
+		// checked for every node as it is built: checking only the finished operand
+		// let `a < b < c || d` through, where the chain is an operand of ||
+		left = p.infixNCheck(inf.led(p, inf.BP, left, t))
 	}
-	return p.infixNCheck(left)
+	return left
 }
 
 func (p *parser) infixNCheck(expr ast.Expr) ast.Expr {
